@@ -27,6 +27,8 @@ pub uninterp spec fn rsin(x: real) -> real;
 pub uninterp spec fn rcos(x: real) -> real;
 pub uninterp spec fn rpowf(x: real, y: real) -> real;
 pub uninterp spec fn PI() -> real;
+/// `f64::NAN` used as a marker value (A11)
+pub uninterp spec fn r_nan() -> real;
 pub uninterp spec fn RGAS() -> real;
 pub open spec fn rabs(x: real) -> real { if x >= 0real { x } else { -x } }
 pub open spec fn rmax(a: real, b: real) -> real { if a >= b { a } else { b } }
